@@ -164,7 +164,7 @@ def walimpl_design(eng, ti):
     Open / StoreLogs / rotation / DeleteRange, incl. inside recovery; the repaired design must satisfy the C01/C03/C04/C13
     invariants; the design switches (pinned F1, seeded S02, no sweep, no tail re-creation) must each be rejected."""
     consts = dict(MaxIdx=(4, 5)[ti], SealAt=(3, 2)[ti], MaxCrashes=(2, 3)[ti], MaxOps=(5, 6)[ti],
-                  RotateOnOpen=True, CreateBeforeCommit=False, Sweep=True, RecreateTail=True)
+                  RotateOnOpen=True, CreateBeforeCommit=False, Sweep=True, RecreateTail=True, MaxFaults=0, Recommit=True)
     r = tlc("WalImpl", cfg_text(constants=consts, invariants=WALIMPL_INVS), timeout=(200, 1500)[ti])
     if r.error == "timeout":
         eng.stats["walimpl_timeout"] = True
@@ -177,7 +177,7 @@ def walimpl_design(eng, ti):
         neg = {}
         for sw, val, expect in (("RotateOnOpen", False, "C03_Writable"), ("CreateBeforeCommit", True, "C03_OpenSucceeds"),
                                 ("Sweep", False, "C13_ExactDir"), ("RecreateTail", False, "C03_OpenSucceeds")):
-            n = tlc("WalImpl", cfg_text(constants=dict(consts, MaxIdx=4, SealAt=3, MaxCrashes=2, MaxOps=5, **{sw: val}),
+            n = tlc("WalImpl", cfg_text(constants=dict(consts, MaxIdx=4, SealAt=3, MaxCrashes=2, MaxOps=5, MaxFaults=0, **{sw: val}),
                                         invariants=WALIMPL_INVS), timeout=600)
             neg[sw] = n.violated
             if not n.violated:
@@ -299,10 +299,34 @@ def fault_plans(io_path, wd, max_pairs, stats):
     return by
 
 
+def walimpl_fault_design(eng, ti):
+    """C10 at design level (spec/WalImpl.tla with MaxFaults > 0): the file creation that follows a metadata commit
+    (truncation, base reset, rotation) may fail; with the re-commit of fix F15 what the WAL shows now and after any later
+    crash is always a log the contract allows, memory and metadata agree; the pinned design (Recommit = FALSE) must be
+    rejected (acknowledged appends vanish at the next restart)."""
+    invs = ["C03_OpenSucceeds", "C01_ViewAllowed", "C01_Recovered", "C13_ExactDir", "C13_UniqueIds", "MemMatchesMeta"]
+    consts = dict(MaxIdx=(4, 5)[ti], SealAt=(3, 2)[ti], MaxCrashes=2, MaxOps=(5, 6)[ti], RotateOnOpen=True,
+                  CreateBeforeCommit=False, Sweep=True, RecreateTail=True, MaxFaults=(1, 2)[ti], Recommit=True)
+    r = tlc("WalImpl", cfg_text(constants=consts, invariants=invs), timeout=(200, 1200)[ti])
+    if r.error == "timeout":
+        eng.stats["walimpl_fault_timeout"] = True
+    elif r.error or r.violated:
+        raise Inconclusive("WalImpl with I/O failures (repaired design) failed: %s %s\n%s" % (r.error, r.violated, r.out[-3000:]))
+    eng.stats["design_states"] = eng.stats.get("design_states", 0) + r.generated
+    eng.stats["design_distinct"] = eng.stats.get("design_distinct", 0) + r.distinct
+    eng.stats["walimpl_faults"] = {"consts": consts, "distinct": r.distinct, "generated": r.generated, "wall": round(r.wall, 1)}
+    neg = tlc("WalImpl", cfg_text(constants=dict(consts, MaxIdx=4, SealAt=3, MaxOps=5, MaxFaults=1, Recommit=False),
+                                  invariants=["C01_ViewAllowed"]), timeout=300)
+    eng.stats["walimpl_faults_negative_control"] = neg.violated
+    if neg.violated != "C01_ViewAllowed":
+        raise Inconclusive("WalImpl negative control Recommit=FALSE (F15) was not rejected: %s %s" % (neg.violated, neg.error))
+
+
 def check_fault(pid, tier, seed):
     ti = 0 if tier == "quick" else 1
     build(["walreplay"])
     eng = we.Engine(pid, tier, seed)
+    walimpl_fault_design(eng, ti)
     consts = dict(MaxIdx=7, Starts={1, 3}, MaxBatch=2, Sizes={1, 2}, MaxOps=(4, 5)[ti], Keys={1}, Vals={0, 2},
                   WithBad=False, WithReopen=True, WithStable=False, MinOps=4)
     prof = dict(consts=consts, n=(6, 30))
